@@ -72,3 +72,6 @@ HARNESSES = [
          stubs=["lha_arch_*: model filesystem (owner permission semantics, parent mtime stamping)", "lha_basic_reader_*: serves the 3 headers", "decoder: payload decodes with matching length/CRC, one read", "fwrite/fclose: succeed"])
     for c, d in [(0, "a/ a/b/ a/b/f"), (1, "a/ a/f c/"), (2, "a/ c/ c/f"), (3, "a/ a/f a/g"), (4, "a/ a/b/ a/g"), (5, "a/ a/f ab/"), (6, "a/ c/ a/g (not contiguous)")]
 ]
+
+HARNESSES.append(dict(name="print.copy", src="C06/print.c", unwind=11, unwindset={"print_archived_file.0": 5, "strlen.0": 3, "strcat.0": 3, "strcat.1": 3, "strchr.0": 3}, units=["src/extract.c:print_archived_file"], timeout=300, mem_gb=4,
+                      bounds="3 pieces of 0..3 arbitrary bytes, any one write cut short", stubs=["lha_reader_read: scripted pieces", "fwrite: recording stub with one optional short write"]))
